@@ -16,6 +16,7 @@ BODY = {
     "exit": "import evh.pair as _p\nchannel.send(('ran', %d, _p.CURRENT.sc.me().idx))\nraise SystemExit(3)\n",
     "int": "import evh.pair as _p\nchannel.send(('ran', %d, _p.CURRENT.sc.me().idx))\nraise KeyboardInterrupt()\n",
     "block": "import evh.pair as _p\nchannel.send(('ran', %d, _p.CURRENT.sc.me().idx))\nchannel.receive()\n",
+    "sleep": "import evh.pair as _p\nchannel.send(('ran', %d, _p.CURRENT.sc.me().idx))\nchannel.gateway.execmodel.sleep(40)\n",   # busy without needing its channel
     "blockrel": "import evh.pair as _p\nchannel.send(('ran', %d, _p.CURRENT.sc.me().idx))\nchannel.receive()\n",   # released later by the initiator
 }
 
@@ -55,6 +56,25 @@ def run_history(hist, chooser, seed):
 
     def user():
         for k, (oc, wait_prev) in enumerate(hist):
+            if oc in ("CLOSE", "DROP"):
+                # the initiator closes / drops ITS end of a running body's channel: the body goes on running, a further request is
+                # still an overlapping one
+                j = wait_prev
+                try:
+                    if obs[j] is None:
+                        obs[j] = settle(j)          # the body has started
+                    if oc == "CLOSE":
+                        chans[j].close()
+                    else:
+                        chans[j] = None
+                        import gc
+
+                        gc.collect()
+                except Exception as e:  # noqa
+                    pass
+                chans.append(None)
+                pr.em_i.sleep(0.05)
+                continue
             if oc == "RELEASE":
                 # first everything submitted so far gets its answer (overlapping requests their refusal), then the blocked body
                 # of exec `wait_prev` is let go and its channel closes
@@ -81,13 +101,13 @@ def run_history(hist, chooser, seed):
             if obs[k] is None:
                 pass
         for k in range(len(hist)):
-            if hist[k][0] == "RELEASE":
-                obs[k] = ("released",)
+            if hist[k][0] in ("RELEASE", "CLOSE", "DROP"):
+                obs[k] = ("released",) if hist[k][0] == "RELEASE" else ("closed-by-initiator",)
             elif obs[k] is None:
-                obs[k] = settle(k)
+                obs[k] = settle(k) if chans[k] is not None else ("ran", None)
         # closing outcome of each finished body
         for k, (oc, _) in enumerate(hist):
-            if obs[k][0] == "ran" and oc not in ("block", "blockrel"):
+            if obs[k][0] == "ran" and oc not in ("block", "blockrel", "sleep"):
                 try:
                     if k in closing:
                         raise closing[k]
@@ -116,8 +136,11 @@ def expected_from_property(hist):
             exp.append("released")
             blocked = False
             continue
+        if oc in ("CLOSE", "DROP"):
+            exp.append("closed-by-initiator")
+            continue
         exp.append("deadlock" if blocked else "ran")
-        if not blocked and oc in ("block", "blockrel"):
+        if not blocked and oc in ("block", "blockrel", "sleep"):
             blocked = True
     return exp
 
@@ -154,7 +177,11 @@ def main(tier, seed, replay=None):
             h = [("blockrel", False)] + [(rng.choice(OUTCOMES[:4]), False) for _ in range(rng.randint(0, 2))] + [("RELEASE", 0)]
             h += [(rng.choice(OUTCOMES[:4]), True) for _ in range(rng.randint(1, 2))]
             hists.append((h, None, rng.getrandbits(30)))
-    has_release = lambda h: any(o == "RELEASE" for o, _ in h)  # noqa
+        # a blocked body whose channel the initiator closes (or drops) while it runs, then further requests: still overlapping
+        for _ in range(20 if tier == "quick" else 400):
+            h = [("sleep", False), (rng.choice(["CLOSE", "DROP"]), 0)] + [(rng.choice(OUTCOMES[:4]), False) for _ in range(rng.randint(1, 2))]
+            hists.append((h, None, rng.getrandbits(30)))
+    has_release = lambda h: any(o in ("RELEASE", "CLOSE", "DROP") for o, _ in h)  # noqa
     mcases = [[14, len(h)] + [x for k, (oc, w) in enumerate(h) for x in (OUTCOMES.index(oc), int(w and k > 0 and h[k - 1][0] != "block"))] if not has_release(h) else [14, 0] for h, _, _ in hists]
     mouts = None
     rel_outs = {}
@@ -166,11 +193,13 @@ def main(tier, seed, replay=None):
                 h = hists[i][0]
                 c, nsub = [21], 0
                 for k, (oc_, w) in enumerate(h):
+                    if oc_ in ("CLOSE", "DROP"):
+                        continue
                     if oc_ == "RELEASE":
                         # w is the history index of the blocked exec: its number among the submissions
                         c += [1, sum(1 for o2, _ in h[:w] if o2 != "RELEASE"), 0]
                     else:
-                        code = 4 if oc_ in ("block", "blockrel") else OUTCOMES.index(oc_)
+                        code = 4 if oc_ in ("block", "blockrel", "sleep") else OUTCOMES.index(oc_)
                         c += [0, code, int(bool(w) and k > 0 and h[k - 1][0] not in ("block", "blockrel", "RELEASE"))]
                         nsub += 1
                 rcases.append(c)
@@ -205,6 +234,8 @@ def main(tier, seed, replay=None):
                 prev = hist[k - 1][0] if k else None
                 if prev == "RELEASE":
                     prev = "released-body"
+                if prev in ("CLOSE", "DROP"):
+                    prev = "initiator-closed-the-running-bodys-channel"
                 if g == "deadlock" and e == "ran":
                     ck.fail(f"false-deadlock-after-{prev}", ex)
                 elif e == "deadlock":
@@ -217,7 +248,7 @@ def main(tier, seed, replay=None):
         if [r_[1] for r_ in ran] != sorted(r_[1] for r_ in ran):
             ck.fail("bodies-not-in-submission-order", ex)
         for k, (oc, _) in enumerate(hist):
-            if oc in ("RELEASE", "blockrel"):
+            if oc in ("RELEASE", "blockrel", "CLOSE", "DROP", "sleep"):
                 continue
             if obs[k] and obs[k][0] == "ran" and len(obs[k]) > 2:
                 want = {"ret": "closed-ok", "raise": "closed-error", "exit": "closed-error", "int": "closed-error"}[oc]
@@ -228,7 +259,7 @@ def main(tier, seed, replay=None):
             mo = rel_outs[idx]
             sep = mo.index(-1)
             mres = ["ran" if x == 0 else "deadlock" if x == 1 else "nothing" for x in mo[:sep]]
-            gsub = [g for g, (oc_, _) in zip(got, hist) if oc_ != "RELEASE"]
+            gsub = [g for g, (oc_, _) in zip(got, hist) if oc_ not in ("RELEASE", "CLOSE", "DROP")]
             ck.count("release_histories_vs_model")
             if mres != gsub:
                 ck.broke("correspondence", "exec-release-model-vs-impl", {"case": ex, "model": mres, "impl": gsub})
